@@ -84,7 +84,7 @@ def gen_C19(v, n):
                 k = rng.choice(["project", "type", "state", "ext", "version", "task"])
                 reps["{%s}" % k] = "{%s:(%s|\\*|\\>)}" % (k, rng.choice(["a|b", "v\\d\\d\\d", "w|p"]))
             kp.append([sel, [[a, b] for a, b in reps.items()]])
-        inp["key_patterns"] = kp
+        inp["key_patterns"] = [[k, val] for k, val in dict((a, b) for a, b in kp).items()]
         out.append(_op("C19", inp))
     out.append(_op("C19", {"sep": "__", "templates": [["shot__shot", "{project}/{type:s}/{sequence}/{shot}"]],
                            "to_extrapolate": ["shot__shot"]}))
@@ -218,6 +218,9 @@ def gen_C11(v, n, model):
             if rng.random() < 0.3:   # a sidecar-like hidden file and a foreign file next to the entity
                 junk.append({"path": p.rsplit("/", 1)[0] + "/.stray.data.json", "kind": "file"})
                 junk.append({"path": p.rsplit("/", 1)[0] + "/notes.txt", "kind": "file"})
+        # junk must not conform: keep only paths the model resolves to an untyped Sid
+        verdict = model([{"op": "sid", "path": j["path"], "config": cfg} for j in junk])
+        junk = [j for j, a in zip(junk, verdict) if a.get("ok", {}).get("type") == ""]
         out.append(_op("C11", {"leaves": ls, "junk": junk[:8], "searches": _searches(v, leaves, 8) + ["hamlet/a/**", "hamlet/s/**", "hamlet/*"]}))
     return out
 
@@ -321,6 +324,77 @@ def gen_C18(v, n):
         else:
             versions = [rng.choice([1, 998, 999])]
         out.append(_op("C18", {"task": task, "tail": tail, "versions": versions, "publish": rng.choice([0, 3, 8])}))
+    return out
+
+
+def gen_C10(v, n):
+    """pairs (search, derived search) by the five rewrite rules"""
+    rng = v.rng
+    out = []
+    for _ in range(n):
+        leaves = families.tree_universe(v)
+        ls = _leaf_strings(leaves)
+        rules = []
+        for _ in range(6):
+            label, fields = rng.choice(leaves)
+            segs = [val for _, val in fields]
+            keys = [k for k, _ in fields]
+            # a base search: some '*'
+            for j in range(len(segs)):
+                if rng.random() < 0.3:
+                    segs[j] = "*"
+            kind = rng.choice(["or", "alias", "starstar", "filter", "literal"])
+            if kind == "or":
+                i = rng.randrange(len(segs))
+                pool = [w for w in (v.closed.get(keys[i]) or ["a", "b", "ophelia", "a-b"]) if w not in v.aliases]
+                alts = rng.sample(pool, min(len(pool), rng.randint(2, 3)))
+                if fields[i][1] not in alts and rng.random() < 0.7:
+                    alts[0] = fields[i][1]
+                s = "/".join(segs[:i] + [",".join(alts)] + segs[i + 1:])
+                rules.append({"kind": "or", "s": s, "alts": ["/".join(segs[:i] + [a] + segs[i + 1:]) for a in alts]})
+            elif kind == "alias" and v.aliases and keys[-1] == v.leaf_keys.get(label.split(v.sep)[0]):
+                al = rng.choice(list(v.aliases.keys()))
+                s = "/".join(segs[:-1] + [al])
+                rules.append({"kind": "alias", "s": s, "alts": ["/".join(segs[:-1] + [m]) for m in v.aliases[al]]})
+            elif kind == "starstar" and len(segs) >= 3:
+                i = rng.randrange(2, len(segs))
+                j = rng.randrange(i, len(segs) + 1)
+                s = "/".join(segs[:i] + ["**"] + segs[j:])
+                rules.append({"kind": "starstar", "s": s,
+                              "alts": ["/".join(segs[:i] + ["*"] * k + segs[j:]) for k in range(0, 9 - len(segs[:i]) - len(segs[j:]) + 1)]})
+            elif kind == "filter":
+                k = rng.choice(keys)
+                val = dict(fields)[k] if rng.random() < 0.7 else rng.choice(v.closed.get(k) or ["ophelia"])
+                if val in v.aliases or any(ch in val for ch in " +%#~,"):
+                    continue
+                rules.append({"kind": "filter", "s": "/".join(segs), "k": k, "v": val})
+            elif kind == "literal":
+                stars = [j for j, x in enumerate(segs) if x == "*"]
+                if not stars:
+                    continue
+                i = rng.choice(stars)
+                val = fields[i][1] if rng.random() < 0.7 else rng.choice(v.closed.get(keys[i]) or ["ophelia"])
+                if val in v.aliases:
+                    continue
+                rules.append({"kind": "literal", "s": "/".join(segs), "i": i, "v": val,
+                              "lit": "/".join(segs[:i] + [val] + segs[i + 1:])})
+        out.append(_op("C10", {"leaves": ls, "rules": rules}))
+    return out
+
+
+def gen_C17(v, n):
+    rng = v.rng
+    out = []
+    for _ in range(n):
+        leaves = families.tree_universe(v, nleaf=2)
+        ls = _leaf_strings(leaves)
+        if len(ls) < 2 or any("." in seg for s in ls for seg in s.split("/")[:-1]):
+            continue
+        if ls[0].rsplit("/", 1)[0] == ls[1].rsplit("/", 1)[0]:
+            continue    # files differing only by extension share one sidecar (the statement's carve-out)
+        def attrs():
+            return [kv for kv in families._attr_data(rng) if kv[0] not in ("sid", "a b")] or [["comment", '"x"']]
+        out.append(_op("C17", {"sid": ls[0], "other": ls[1], "old": None if rng.random() < 0.4 else attrs(), "new": attrs()}))
     return out
 
 
